@@ -391,13 +391,36 @@ fn drive_variant(
                         }
                     }
                 }
+                // two-change sets in a given order (state carried from one change to the next shows here, where
+                // the full set would mask it): the two files that share a directory, both orders, plus two random pairs
+                let mut pairs = vec![];
+                let nf = files.len();
+                let mut pair_idx: Vec<(usize, usize)> = if nf >= 2 { vec![(0, nf - 1), (nf - 1, 0)] } else { vec![] };
+                for _ in 0..(if nf >= 2 { 2 } else { 0 }) {
+                    let i = rng.gen_range(0..nf);
+                    let j = (i + rng.gen_range(1..nf)) % nf;
+                    pair_idx.push((i, j));
+                }
+                for (i, j) in pair_idx {
+                    sink.evals += 1;
+                    let cs = vec![conc_files[i].clone(), conc_files[j].clone()];
+                    match guard(|| verif::analyze(&cfg_json, fixture, Some(&cs), false, false, false)) {
+                        Ok(o2) => {
+                            let tl = str_list(&o2["targets"]);
+                            pairs.push(json!({"paths": [files[i], files[j]], "targets": tl.iter().map(|x| s.abs(x)).collect::<Vec<_>>(), "strictly_sorted": strictly_sorted(&tl)}));
+                        }
+                        Err(e) => {
+                            pairs.push(json!({"paths": [files[i], files[j]], "targets": [["<error>", err_kind(&e)]], "strictly_sorted": false}));
+                        }
+                    }
+                }
                 // the abstract order of a sorted concrete list depends on the naming scheme; the
                 // byte-order fact is recorded as a boolean and the list is canonicalised
                 let mut abs_t: Vec<Value> = tv.iter().map(|x| s.abs(x)).collect();
                 abs_t.sort_by_key(|x| x.to_string());
                 json!({"ok": true, "targets": abs_t,
                        "strictly_sorted": strictly_sorted(&tv), "per_change": per_change,
-                       "singles": singles,
+                       "singles": singles, "pairs": pairs,
                        "presentations": pres.into_iter().map(|x| serde_json::from_str::<Value>(&x).unwrap()).collect::<Vec<_>>()})
             }
         };
